@@ -142,12 +142,96 @@ def _mean_of_compare(du, e, at):
             whole._pad_ok = okpad
         return whole, ax, cn, ("fraction" if unit == "fraction" else "count")
     v = expand_name(du, e, at)
+    tb = _time_blocked(du, e, at)
+    if tb is not None:
+        return tb
     if isinstance(v, ast.Call) and call_name(v) in ("mean", "count_nonzero", "sum") and v.args:
         ax = kwarg(v, "axis") or (v.args[1] if len(v.args) > 1 else None)
         cmp_ = expand_name(du, v.args[0], at)
         if isinstance(cmp_, ast.Compare) and len(cmp_.ops) == 1:
             return cmp_, ax, v, ("fraction" if call_name(v) == "mean" else "count")
     return None, None, v, None
+
+
+def _time_blocked(du, e, at):
+    """The per-sample fraction is filled block of SAMPLES by block: ACC = zeros(ns); for first in range(0, ns, B): last = min(first + B, ns);
+    ACC[first:last] = mean(<test on data[:, lo:hi]>, axis=0) (the slew part padded).  Returns the test with the block slices replaced by the whole
+    array, and records in `_tblock` what the rule has to know about the block edges."""
+    if not isinstance(e, ast.Name):
+        return None
+    ds = [d for d in du.defs if d.var == e.id and d.kind == "assign" and isinstance(d.value, ast.Call) and call_name(d.value) in ("zeros", "zeros_like")]
+    if not ds:
+        return None
+    fn_node = du.cfg.fn if hasattr(du.cfg, "fn") else None
+    stores = []
+    for m in du.defs:
+        if m.var == e.id and m.kind == "mutate" and isinstance(m.stmt, ast.Assign) and isinstance(m.stmt.targets[0], ast.Subscript) and isinstance(m.stmt.targets[0].slice, ast.Slice):
+            stores.append(m.stmt)
+    if len(stores) != 1:
+        return None
+    st = stores[0]
+    sl = st.targets[0].slice
+    lo, hi = loc_name(sl.lower), sl.upper
+    if not lo or hi is None:
+        return None
+    # the enclosing loop: for <lo> in range(0, ns, B)
+    loop = None
+    for n in du.cfg.nodes:
+        s_ = n.stmt
+        if isinstance(s_, ast.For) and loc_name(s_.target) == lo and any(x is st for x in ast.walk(s_)):
+            loop = s_
+    if loop is None or not (isinstance(loop.iter, ast.Call) and call_name(loop.iter) == "range" and len(loop.iter.args) == 3):
+        return None
+    val = expand_name(du, st.value, st)
+    padded = False
+    if isinstance(val, ast.Subscript) and isinstance(val.value, ast.Attribute) and val.value.attr == "r_":
+        parts = val.slice.elts if isinstance(val.slice, ast.Tuple) else [val.slice]
+        if len(parts) == 2 and const_value(parts[1]) == (True, 0):
+            padded = True
+            val = expand_name(du, parts[0], st)
+    if not (isinstance(val, ast.Call) and call_name(val) in ("mean", "count_nonzero", "sum") and val.args):
+        return None
+    ax = kwarg(val, "axis") or (val.args[1] if len(val.args) > 1 else None)
+    cmp_ = expand_name(du, val.args[0], st)
+    if not (isinstance(cmp_, ast.Compare) and len(cmp_.ops) == 1):
+        return None
+    # block operands: names defined in the loop as data[:, a:b] (possibly through asarray)
+    block_cols = []
+    import copy
+
+    class Unblock(ast.NodeTransformer):
+        def visit_Name(self, node):
+            v_ = expand_name(du, node, st)
+            cur = v_
+            while isinstance(cur, ast.Call) and call_name(cur) in ("asarray", "array", "ascontiguousarray", "astype") and (cur.args or isinstance(cur.func, ast.Attribute)):
+                cur = cur.args[0] if cur.args and not (isinstance(cur.func, ast.Attribute) and call_name(cur) == "astype") else cur.func.value
+            if isinstance(cur, ast.Subscript) and loc_name(cur.value) == "data" and isinstance(cur.slice, ast.Tuple) and len(cur.slice.elts) == 2 \
+                    and isinstance(cur.slice.elts[1], ast.Slice):
+                block_cols.append(cur.slice.elts[1])
+                return ast.Name(id="data", ctx=ast.Load())
+            return node
+    def _direct(self, node):
+        node = self.generic_visit(node)
+        if isinstance(node, ast.Subscript) and loc_name(node.value) == "data" and isinstance(node.slice, ast.Tuple) and len(node.slice.elts) == 2 \
+                and isinstance(node.slice.elts[1], ast.Slice) and isinstance(node.slice.elts[0], ast.Slice) and node.slice.elts[0].lower is None and node.slice.elts[0].upper is None:
+            block_cols.append(node.slice.elts[1])
+            return ast.Name(id="data", ctx=ast.Load())
+        return node
+
+    def _wrap(self, node):
+        node = self.generic_visit(node)
+        if call_name(node) in ("asarray", "array", "ascontiguousarray") and len(node.args) == 1 and isinstance(node.args[0], ast.Name) and node.args[0].id == "data":
+            return node.args[0]
+        return node
+    Unblock.visit_Subscript = _direct
+    Unblock.visit_Call = _wrap
+    whole = Unblock().visit(copy.deepcopy(cmp_))
+    ast.fix_missing_locations(whole)
+    if not block_cols:
+        return None
+    whole._origin = st
+    whole._tblock = {"loop": loop, "store": st, "lo": lo, "hi": hi, "padded": padded, "cols": block_cols}
+    return whole, ax, val, ("fraction" if call_name(val) == "mean" else "count")
 
 
 def _flags_term(fi):
@@ -260,6 +344,30 @@ def d1_comparators(ctx):
                   key="axis:" + (loc_name(a.left) or "?"))
         if "diff" in src(cmp_):
             kinds["slew"] = cmp_
+            tbk = getattr(cmp_, "_tblock", None)
+            if tbk is not None:
+                # the difference between the LAST sample of a block and the first sample of the next one belongs to the last sample of the block: the block that
+                # is differentiated has to reach one sample past the range it fills (data[:, first:last + 1]); padding every block with a 0 drops that edge
+                overlap = False
+                hi_txt = src(tbk["hi"]).replace(" ", "")
+                for c_ in tbk["cols"]:
+                    up = c_.upper
+                    txt = src(up).replace(" ", "") if up is not None else ""
+                    if up is None or norm(up) == norm(tbk["hi"]):
+                        continue
+                    try:
+                        evb = Evaluator()
+                        if (evb.ev(up) - evb.ev(tbk["hi"])).const_value() == 1:
+                            overlap = True
+                    except Undecided:
+                        pass
+                    if (hi_txt + "+1") in txt or ("1+" + hi_txt) in txt:
+                        overlap = True
+                ctx.check(overlap, fi, tbk["store"], tbk["store"], "blocks of samples overlap by one sample for the slew test (no edge is lost)",
+                          f"`{src(tbk['store'])[:80]}`: the slew of each block of samples is computed on data[:, {tbk['lo']}:{src(tbk['hi'])}] alone"
+                          f"{' and padded with a 0' if tbk['padded'] else ''}: the step from the last sample of a block to the first sample of the next block is never "
+                          f"evaluated, so a saturation onset exactly at a block edge (sample k * block - 1) is not flagged and not muted - invisible while the input is "
+                          "shorter than one block", key="block-edge", name_free=True)
             if hasattr(cmp_, "_pad_ok"):
                 ctx.check(cmp_._pad_ok, fi, cmp_._block["acc_stmt"], cmp_._block["acc_stmt"], "slew counts land on the sample before the jump (last sample never flagged)",
                           "the ns-1 slew counts are not accumulated into [:-1] of the per-sample vector: flags are shifted by one sample", key="pad")
